@@ -54,6 +54,18 @@ static void leaf(const std::vector<std::string>& w)
 		b->mPtrState = (v == 0) ? KLimP::stateNull : (v == 1) ? KLimP::stateNullWasFull : uintptr_t(v);
 		printf("%d\n", int(b->WasFull()));
 	}
+	else if (which == 6)
+	{	// BucketOne<uint64_t item>: AddCrt(hashCode), Remove, Clear -> state word, IsFull, WasFull after each
+		typedef internal::BucketOne<BIT, 1> KOne;
+		KOne* b = raw_new<KOne>(); MemManagerDefault mm; KOne::Params params(mm);
+		size_t hc = std::stoull(w[1]);
+		auto it = b->AddCrt(params, [] (uint64_t* p) { *p = 7; }, hc, 0, 0);
+		printf("%llu %d %d ", ull(b->mHashState), int(b->IsFull()), int(b->WasFull()));
+		b->Remove(params, it, [] (uint64_t&, uint64_t&) {});
+		printf("%llu %d %d ", ull(b->mHashState), int(b->IsFull()), int(b->WasFull()));
+		b->Clear(params);
+		printf("%llu %d %d\n", ull(b->mHashState), int(b->IsFull()), int(b->WasFull()));
+	}
 	else if (which == 5) printf("%llu\n", ull(KLimP::pvGetMemPoolIndex(size_t(std::stoull(w[1])))));
 	else puts("?leaf");
 }
